@@ -615,6 +615,87 @@ func allStrings(nT, maxLen int) [][]int {
 	return out
 }
 
+// lrConditions checks, on the generator's own automaton, the conditions the deductive
+// proof of the runtime driver assumes about the tables (wfTables in the runtime
+// contracts): with item(s,p,d) := "state s holds production p with the dot at d",
+// I0 state 0 holds only dot-0 items; I1 a reduce by p in s implies item(s,p,|p|);
+// I2 an item with a positive dot in the target of an edge has its predecessor in the
+// source; I3 a dot-0 item of p != 0 implies a goto on p's rule; shift and goto targets
+// are states of the table; accept occurs only on EOF.
+func lrConditions(rep *report, name string, t *lr1.ParserTable) {
+	g := t.Grammar
+	has := func(s *lr1.ItemSet, p, d int) bool {
+		for _, it := range s.Items() {
+			if it.Prod == p && it.Dot == d {
+				return true
+			}
+		}
+		return false
+	}
+	inTable := map[*lr1.ItemSet]bool{}
+	for i, s := range t.States {
+		inTable[s] = true
+		if s.Index != i {
+			rep.fail("runtime-assumption/wfTables/state-index-is-position", name, fmt.Sprintf("States[%d].Index = %d", i, s.Index))
+		}
+	}
+	for _, it := range t.States[0].Items() {
+		if it.Dot != 0 {
+			rep.fail("runtime-assumption/wfTables/I0", name, "state 0 holds an item with a positive dot")
+		}
+	}
+	for _, s := range t.States {
+		am := t.Actions(s)
+		for _, term := range am.Terminals() {
+			for _, a := range am.Get(term).Elements() {
+				switch a.Type {
+				case lr1.ActionReduce:
+					for _, p := range a.Prods {
+						if p.Index == 0 || !has(s, p.Index, len(p.Terms)) {
+							rep.fail("runtime-assumption/wfTables/I1", name, fmt.Sprintf("I%d reduces by production %d without holding its completed item", s.Index, p.Index))
+						}
+					}
+				case lr1.ActionShift:
+					if !inTable[a.ShiftState] {
+						rep.fail("runtime-assumption/wfTables/targets-are-states", name, fmt.Sprintf("I%d shifts to a state outside the table", s.Index))
+					}
+				case lr1.ActionAccept:
+					if term.Index != 0 {
+						rep.fail("runtime-assumption/wfTables/accept-only-on-EOF", name, fmt.Sprintf("I%d accepts on %s", s.Index, term.Name))
+					}
+				}
+			}
+		}
+		tm := t.Transitions(s)
+		for _, in := range tm.Inputs() {
+			to := tm.Get(in)
+			if !inTable[to] {
+				rep.fail("runtime-assumption/wfTables/targets-are-states", name, fmt.Sprintf("I%d has a transition to a state outside the table", s.Index))
+				continue
+			}
+			for _, it := range to.Items() {
+				if it.Dot > 0 && !has(s, it.Prod, it.Dot-1) {
+					rep.fail("runtime-assumption/wfTables/I2", name, fmt.Sprintf("I%d -> I%d on %s: item (%d,%d) has no predecessor in the source", s.Index, to.Index, in.TermName(), it.Prod, it.Dot))
+				}
+			}
+		}
+		for _, it := range s.Items() {
+			if it.Dot == 0 && it.Prod != 0 {
+				rule := g.Prods[it.Prod].Rule
+				found := false
+				for _, in := range tm.Inputs() {
+					if in == lr1.Term(rule) {
+						found = true
+					}
+				}
+				if !found {
+					rep.fail("runtime-assumption/wfTables/I3", name, fmt.Sprintf("I%d holds a dot-0 item of production %d but has no goto on %s", s.Index, it.Prod, rule.Name))
+				}
+			}
+		}
+	}
+}
+
 func constructSafely(g *lr1.Grammar) (t *lr1.ParserTable, panicked string) {
 	defer func() {
 		if r := recover(); r != nil {
@@ -627,9 +708,9 @@ func constructSafely(g *lr1.Grammar) (t *lr1.ParserTable, panicked string) {
 // TestLALR: C01 / C04 bounded stand-in for First, Closure, Goto, Next,
 // ConstructLALR, createActions.
 func TestLALR(t *testing.T) {
-	maxP, maxRHS, maxLen := 3, 2, 5
+	maxP, maxRHS, maxLen := 4, 2, 5
 	if thorough {
-		maxP, maxLen = 4, 6
+		maxP, maxLen = 5, 6
 	}
 	gs := enumGrammars(2, 2, maxP, maxRHS)
 	rep := newReport("lalr-vs-reference")
@@ -645,6 +726,7 @@ func TestLALR(t *testing.T) {
 			return
 		}
 		refConflict := compareWithReference(rep, name, g, tab)
+		lrConditions(rep, name, tab)
 		rep.count(len(tab.States) > 2)
 		if tab.HasConflicts != refConflict {
 			rep.fail("lr1.resolveConflicts/conflict-verdict", name, fmt.Sprintf("HasConflicts=%v but the reference LALR(1) automaton has conflicts=%v", tab.HasConflicts, refConflict))
